@@ -114,8 +114,9 @@ pub fn check_volume(c: &VolumeCase) -> Check {
     }
     let file = File::new(bytes);
     let scan = no_panic("File::scan", || file.scan())?;
-    // reuse: converting the same file object a second time must give the same scan
-    if let (Ok(first), Ok(Ok(second))) = (&scan, no_panic("File::scan", || file.scan())) {
+    // reuse / clone: converting a clone of the file object (after the first conversion) must give the same scan
+    let twin = file.clone();
+    if let (Ok(first), Ok(Ok(second))) = (&scan, no_panic("File::scan", || twin.scan())) {
         ensure_eq!(first.coverage_pattern_number(), second.coverage_pattern_number(), "scan:second-conversion-differs");
         ensure!(first.sweeps().len() == second.sweeps().len() && first.sweeps().iter().zip(second.sweeps().iter()).all(|(a, b)| a.elevation_number() == b.elevation_number() && a.radials().len() == b.radials().len()), "scan:second-conversion-differs", "scan() of the same File gave a different sweep structure the second time");
     }
